@@ -140,11 +140,14 @@ TABLE = [
     ('Strand.Submit', 'src/exe/strand.cpp', r'void\s+Strand::Submit\s*\(', None, '0'),
     ('WaitRange', 'include/yaclib/async/detail/wait_impl.hpp', r'bool\s+WaitRange\s*\(', None, '0'),
     ('WaitCore', 'include/yaclib/async/detail/wait_impl.hpp', r'bool\s+WaitCore\s*\(', None, '0'),
+    ('WaitIterator.plain', 'include/yaclib/async/detail/wait_impl.hpp', r'bool\s+WaitIterator\s*\(', None, '0'),
+    ('WaitIterator.shared', 'include/yaclib/async/detail/wait_impl.hpp', r'bool\s+WaitIterator\s*\(', None, 'VF_ANY_OF_0_1'),
     ('When.dynamic', 'include/yaclib/async/when/when.hpp', r'auto\s+When\s*\(\s*Iterator\s+begin\s*,\s*std::size_t\s+count\s*\)', None, 'VF_ANY_OF_0_2'),
     ('When.static', 'include/yaclib/async/when/when.hpp', r'auto\s+When\s*\(\s*Futures\s*\.\.\.\s*futures\s*\)', None, 'VF_ANY_OF_0_2'),
     ('DynamicCombinator.Set', 'include/yaclib/async/when/when.hpp', r'void\s+Set\s*\(\s*Iterator\s+begin\s*,\s*std::size_t\s+count\s*\)', r'struct\s+DynamicCombinator\s*:', '0'),
     ('SingleCombinator.Set', 'include/yaclib/async/when/when.hpp', r'void\s+Set\s*\(\s*Iterator\s+begin\s*,\s*std::size_t\s+count\s*\)', r'struct\s+SingleCombinator\s*:', '0'),
     ('All.None.Dtor', 'include/yaclib/async/when/all.hpp', r'~All\s*\(\s*\)', r'struct\s+All<FailPolicy::None,', 'VF_RESERVED_LOOP'),
+    ('All.FirstFail.Dtor', 'include/yaclib/async/when/all.hpp', r'~All\s*\(\s*\)', r'struct\s+All<FailPolicy::FirstFail,', 'VF_RESERVED_LOOP_0_1'),
 ]
 
 
@@ -152,13 +155,41 @@ def jobs(ctx):
     repo = ctx.repo
     props = ['C20']
     out = []
-    for nm, f, sig, within, expect in TABLE:
+    for entry in TABLE:
+        try:
+            out += one(ctx, props, *entry)
+        except ExtractionBreak as e:
+            getattr(ctx, 'breaks', []).append(str(e))      # this function is undecided; the others are still checked
+    return out
+
+
+def one(ctx, props, nm, f, sig, within, expect):
+    repo = ctx.repo
+    out = []
+    if True:
         b = find_body(repo, f, sig, nm, within=within)
         t = re.sub(r'"(?:[^"\\]|\\.)*"', '""', b.text)      # keywords inside string literals are not structure
+        if nm.startswith('WaitIterator.'):
+            # which event type a range of futures gets is a compile-time selection: configuration, pinned textually (a changed selection is undecided, not silently accepted);
+            # DynamicSharedEvent owns a vector of helper callbacks (one allocation in its constructor, shared_event.hpp), the plain MultiEvent owns nothing
+            from vf.cxx2c import drop_pinned
+            t = re.sub(r'static_assert\((?:[^()]|\((?:[^()]|\([^()]*\))*\))*\)\s*;', '', t)
+            t = drop_pinned('WaitIterator', t, ['static constexpr bool kShared = std::is_same_v<decltype(it->GetHandle()), SharedHandle>;',
+                                                'using CoreEvent = MultiEvent<Event, AtomicCounter, CallCallback>;',
+                                                'using FinalEvent = std::conditional_t<kShared, DynamicSharedEvent<CoreEvent>, CoreEvent>;'])
+            t, n_ev = re.subn(r'FinalEvent\s+event\s*\{[^{};]*\}\s*;', 'vf_helpers.resize(count);' if nm.endswith('.shared') else ';', t)
+            if n_ev != 1:
+                raise ExtractionBreak('WaitIterator: the event construction `FinalEvent event{...};` was not found exactly once')
         t = demote_lambda_returns(nm, t)
         sk = skeleton(nm, t)
-        if expect == 'VF_ANY_OF_0_2':
+        if expect == 'VF_ANY_OF_0_1':
+            post = '(vf_allocs == 0 || vf_allocs == 1)      /* a range of SharedFutures: the fast paths allocate nothing, otherwise exactly the helper-callback vector: a constant number of blocks */'
+        elif expect == 'VF_ANY_OF_0_2':
             post = '(vf_allocs == 0 || vf_allocs == 2)      /* empty input: nothing; otherwise the contract and the combinator: a constant, independent of the number of inputs */'
+        elif expect == 'VF_RESERVED_LOOP_0_1':
+            post = '(vf_allocs == 0 || vf_allocs == 1)      /* all inputs succeeded: one reserve, the loop appends within the reserved capacity; a failure was published: nothing */'
+            if re.search(r'\.reserve\s*\(', t):
+                sk = re.sub(r'while \(nondet_bool\(\)\) VF_LOOP_INV\s*\{\s*VF_ALLOC\(\);', 'while (nondet_bool()) VF_LOOP_INV {', sk)
         elif expect == 'VF_RESERVED_LOOP':
             post = '(vf_allocs == 1)      /* one reserve; the loop appends within the reserved capacity */'
             # push_back after a visible reserve does not allocate
